@@ -239,4 +239,16 @@ var props = []Prop{
 		Stubs:       []string{"as C10"},
 		Assumptions: commonAssumptions,
 	},
+	{
+		ID: "C01", Level: "other",
+		Harnesses: []HSpec{
+			{Dir: "internal/pkg/template", Fn: "VF_C01_interpreter", Witnesses: 8},
+			{Dir: "internal/pkg/compiler", Fn: "VF_C01_api", MaxStrLen: [2]int{30, 30}, Split: 4},
+			{Dir: "internal/pkg/compiler", Fn: "VF_C01_getters", MaxStrLen: [2]int{30, 30}, Split: 4},
+			{Dir: "internal/pkg/compiler", Fn: "VF_C01_own_imports", MaxStrLen: [2]int{30, 30}, Split: 3},
+			{Dir: "internal/pkg/compiler", Fn: "VF_C01_param_literals", MaxStrLen: [2]int{30, 30}},
+		},
+		Bounds:      []string{"(under construction)"},
+		Assumptions: commonAssumptions,
+	},
 }
